@@ -103,6 +103,45 @@ TEXT = {
              "beve's unsafe code); memcheck runs the socket part in the thorough tier. Found and fixed D6.",
         note="Miri's -Zmiri-symbolic-alignment-check is not used: it rejects the runtime address check beve legitimately performs (false alarm).",
         ref="DESIGN.md §4 C08"),
+    "C03": dict(
+        technique="runtime monitor over event logs (exactly-once, ordering) + differential comparison of four dispatch paths with raw protocol peers",
+        text="Runtime monitoring: one router holding every built-in handler kind is served at once by Server, AsyncServer, WebSocketServer inline "
+             "and off-reader (each plain and behind a recording middleware); raw TCP / WebSocket peers built on the independent codec send generated "
+             "pipelined sequences (<= 64 requests mixing versions, query formats, UTF-8/non-UTF-8 queries, known/unknown paths, body formats, "
+             "well-formed/malformed bodies, notify 0/1) with unique ids and tokens and then read to end-of-stream, so absent frames are observed. "
+             "Oracle layers: structural exactly-once/echo/notify-silence/inline-order from the event log, error classes derived from how each "
+             "request was generated, and a differential over (ec, formats, query, body) across the four transports.",
+        note="Statement leaves the code for an undecodable body (4 or 5) and the precedence of simultaneous reject conditions open: both accepted, pinned only differentially.",
+        ref="DESIGN.md §4 C03"),
+    "C19": dict(
+        technique="fault-sequence enumeration against a scripted fake node driven from the attempt probe; attempt-log oracle; bounded-progress recovery check",
+        text="Runtime monitoring with enumerated faults: a raw fake node whose behaviour for the next attempt is set from the verif-hooks attempt "
+             "probe executes every outcome sequence of length <= max_attempts+2 over {refused, accepted-then-closed, closed-while-idle (noticed / "
+             "racy), silent, malformed, application error, success} for max_attempts 1..2 (quick; 1..3 thorough) on Fleet and AsyncFleet, each "
+             "followed by a healthy phase; the attempt log decides the attempt bound, retry-only-after-transport-failure, reported result and "
+             "recovery (no wedged node) as bounded progress; all tag subsets over <= 4 nodes decide broadcast addressing. Found and fixed D7.",
+        note="Verdicts come from the attempt log; timing only triggers re-runs. Whether a malformed reply is retried is not pinned (both accepted).",
+        ref="DESIGN.md §4 C19"),
+    "C09": dict(
+        technique="runtime monitor with a raw SVS client (byte-equality, end-marker and error-after-end oracle) over a chunk/payload/depth/compression grid; library pullers compared on the same grid; memcheck on the zstd path",
+        text="Runtime monitoring: real Server and WebSocketServer with every producer kind (value, typed, complex, reader, writer, failing "
+             "producers) are pulled by a raw client that performs open/next/cancel itself over chunk sizes 1 B..1 MiB x payload lengths at every "
+             "boundary residue x depth 0..8 x {none, zstd}; the concatenation (decompressed by the harness) must equal independently computed "
+             "bytes, exactly one final chunk carries the end marker, empty payloads are one empty final chunk, next after end/cancel/failure is an "
+             "error and a failing producer never yields an end marker; the blocking, async and WebSocket library pullers are compared on the same "
+             "grid with seeded producer/consumer delays. valgrind memcheck runs a reduced grid in the thorough tier (zstd C code).",
+        note="AsyncServer is excluded (documented as unsupported for SVS). zstd boundary targeting is exact only for incompressible payloads.",
+        ref="DESIGN.md §4 C09"),
+    "C10": dict(
+        technique="fault and crash-point enumeration: scripted fake SVS server, self-SIGKILL at verif-hooks crash points in child processes, strace syscall-order specification and strace fault injection; directory-snapshot oracle",
+        text="Runtime monitoring with enumerated faults: a scripted fake SVS server injects producer errors after every chunk, connection cuts "
+             "after every response, missing end markers, over-long trailers and tag mismatches against the 7 file pullers and 6 value pullers with "
+             "destination absent / existing / existing+stale temp; child processes are killed (SIGKILL) at the n-th hit of every crash point of the "
+             "write-flush-sync-rename path; successful and failing pulls are traced with strace and checked against write* -> fsync -> rename "
+             "(no write after sync, no rename on failure); strace's inject= provides hook-independent kills. Oracle: destination byte-identical to "
+             "its prior state or exactly the complete content, no temp file after an in-process failure, value pulls never Ok on truncation.",
+        note="Power-loss durability is out of reach (a process kill keeps the page cache); fsync ordering is decided by the strace specification only. strace unavailable => that stage is inconclusive.",
+        ref="DESIGN.md §4 C10"),
 }
 
 ALL = [f"C{i:02d}" for i in range(1, 20)]
